@@ -236,7 +236,9 @@ def oracle_commands(scn, res):
             break
     got = []
     for log in res["peer"]:
-        for l in log["lines"]:
+        for k, l in enumerate(log["lines"]):
+            if log.get("stayed_plain_from") is not None and k >= log["stayed_plain_from"]:
+                break             # (the peer left TLS on its own: what it reads from here are TLS records, judged by the tls oracle)
             line = l["line"]
             if not line.endswith(b"\r\n"):
                 v.append((-1, "wire/line-not-terminated-by-CRLF", repr(line)))
